@@ -19,6 +19,13 @@ JudgeOrd(e) == /\ e.out.k = "ok"
                /\ (e.out.cmp = 0) = (e.out.rcmp = 0) /\ (e.out.cmp = -1) = (e.out.rcmp = 1)     \* antisymmetry
 JudgeExtras(e) == e.out.k = "ok" /\ ExtrasDecoded(e.args.doc, e.out.o) /\ ExtrasAfterCycle(e.out.o2)
 JudgeRender(e) == /\ e.out.k = "ok"
+                  \* the id accessors report the raw fields; has_source / has_name say whether the id names something
+                  \* DEVIATION NameIdSurvivesRemoveNames (as found): after remove_names() get_name_id() keeps reporting the id the
+                  \* name had, while has_name() / get_name() report none (raw[6] is the name as get_name() sees it)
+                  /\ e.out.ids = e.args.a.rawids /\ e.args.a.rawids[1] = e.args.a.raw[3]
+                  /\ (e.args.a.raw[6] # -1 => e.args.a.rawids[2] = e.args.a.raw[6])
+                  /\ e.out.has = <<e.args.a.raw[3] # -1, e.args.a.nm # <<>> >>
+                  /\ (e.args.a.nm # <<>>) = (e.args.a.raw[6] # -1)
                   /\ (RenderJudged(e.args.a) => /\ e.out.display = Render(e.args.a)
                                                 /\ e.out.alt = RenderAlt(e.args.a)
                                                 /\ e.out.debug = RenderDebug(e.args.a))
